@@ -15,7 +15,9 @@ TIMEOUT_S = 240.0
 RULE = ("one run = batch of 40 abstract values (recursive builtin scalars / list / tuple / set / frozenset / dict, depth <= 3, "
         "elements of one set and keys of one dict pairwise unequal across types) + for each a near-collision mutant (one "
         "leaf or container type changed) evaluated on 6 interpreter nodes = (PYTHONHASHSEED in {0, 1, 2, random...}) x "
-        "(construction-history seed); one evaluation = one value on all nodes; distinct = distinct canonical values; "
+        "(history seed: construction history of the value, order in which the node hashes the batch, unrelated joblib.hash "
+        "calls in between -- some failing half-way through the dump, some on sets that are not totally ordered -- and a second "
+        "hashing of 30 % of the values later in the same interpreter; one node is the quiet baseline); one evaluation = one value on all nodes; distinct = distinct canonical values; "
         "non-trivial = the value contains a set, frozenset or dict with >= 2 entries (so that order can matter)")
 REAL_CODE = ["joblib.hashing.hash / Hasher / _ConsistentSet", "fresh CPython interpreters with different string-hash seeds"]
 STUBBED = ["nothing"]
@@ -184,6 +186,10 @@ def run_case(case):
                     verdict = {"class": "hash_raised", "detail": "%s: %s" % (json.dumps(spec)[:300], sorted(vals)[:2]),
                                "sig": {"what": "hash_raised"}}
                 continue
+            if any(v[0] == "AGAIN" for v in vals) and verdict is None:
+                verdict = {"class": "digest_depends_on_earlier_calls", "detail": "value %s hashed twice in one interpreter: %s" % (
+                    json.dumps(spec)[:300], [v[1] for v in vals if v[0] == "AGAIN"][0][:300]),
+                    "sig": {"what": "digest_depends_on_earlier_calls"}}
             if len(vals) > 1 and verdict is None:
                 kinds = sorted(_kinds(spec, set()))
                 which = [case["nodes"][k] for k in range(len(results))]
@@ -201,7 +207,8 @@ def run_case(case):
                     by_digest[(k_, dgst)] = (cn, spec)
         return {"verdict": verdict, "digest": h.hexdigest()[:24], "shape": None, "shapes": shapes, "evals": len(case["specs"]),
                 "steps": len(case["specs"]) * len(case["nodes"]), "switches": 0, "sim_time": 0.0,
-                "faults": {"interpreter_with_other_hash_seed": len(case["nodes"])},
+                "faults": {"interpreter_with_other_hash_seed": len(case["nodes"]),
+                           "node_with_shuffled_order_and_unrelated_failing_hash_calls": sum(1 for n_ in case["nodes"] if n_[1] != 1)},
                 "probes": {"near_collision_pairs": len(case["specs"]) - 40},
                 "nontrivial": True, "sample": {"nodes": case["nodes"], "specs": case["specs"][:3]}}
     finally:
